@@ -33,6 +33,20 @@ func (ip IP) String() string {
 	return string(ip)
 }
 
+// Equal compares the textual forms (two spellings of one IPv6 address count as different).
+func (ip IP) Equal(o IP) bool { return string(ip) == string(o) }
+
+func (ip IP) IsLoopback() bool    { return strings.HasPrefix(string(ip), "127.") || string(ip) == "::1" }
+func (ip IP) IsUnspecified() bool { return string(ip) == "0.0.0.0" || string(ip) == "::" }
+
+// To4 returns the address itself if it is a dotted quad, nil otherwise (only nil-ness is meaningful).
+func (ip IP) To4() IP {
+	if isIPv4(string(ip)) {
+		return ip
+	}
+	return nil
+}
+
 type UDPAddr struct {
 	IP   IP
 	Port int
@@ -300,6 +314,8 @@ type TCPConn struct {
 	WriteCalls    int // every Write call, failed ones included
 	FailWrites    int // the next FailWrites writes fail
 	WriteFault    func(c *TCPConn, b []byte) bool
+	FailAccept    int      // a failing write first accepts this many bytes (always fewer than offered) and reports them
+	PartialBytes  int      // how many bytes failing writes accepted in total
 	closed        bool
 	Closes        int
 	inbox         chan []byte
@@ -339,15 +355,30 @@ func (c *TCPConn) Write(b []byte) (int, error) {
 	}
 	if c.FailWrites > 0 {
 		c.FailWrites--
-		return 0, errors.New("broken pipe")
+		return c.acceptPart(b), errors.New("broken pipe")
 	}
 	if c.WriteFault != nil && c.WriteFault(c, b) {
-		return 0, errors.New("connection reset by peer")
+		return c.acceptPart(b), errors.New("connection reset by peer")
 	}
 	mu.Lock()
 	c.Written = append(c.Written, append([]byte(nil), b...))
 	mu.Unlock()
 	return len(b), nil
+}
+
+// acceptPart: a write that fails may have handed a prefix of the data to the peer before.
+func (c *TCPConn) acceptPart(b []byte) int {
+	k := c.FailAccept
+	if k >= len(b) {
+		k = len(b) - 1
+	}
+	if k <= 0 {
+		return 0
+	}
+	mu.Lock()
+	c.PartialBytes += k
+	mu.Unlock()
+	return k
 }
 
 // Feed queues one segment for the proxy to read.
